@@ -55,6 +55,10 @@ CHECKS = {
   text="Ground-truth recomputation: every statistic of the statistics file (JSON and TOML) and the cross-checked report rows are compared with values recomputed from the input by the independent walker, for generated well-framed streams with arbitrary header values and for (mutated) conforming streams, in all check modes, the three views and filtered writing, with every filter kind, from file and pipe.",
   note="Trusted base: independent walker; which packets count for which statistic is fixed in DESIGN.md A.5; sets compared as sets, links required sorted; runs with FATAL early stop excluded (counted).",
   technique="property-based testing: differential against independently recomputed ground truth"),
+ "C15": dict(
+  text="Round-trip and drift testing of statistics files on the real CLI: a file written by a run (JSON / TOML, muted or not, five check modes, conforming and erroneous multi-link inputs) must be accepted by the same run again without any mismatch; then every leaf of the independently parsed file that the run collects is perturbed one at a time, type-correctly, re-serialised with an independent library and must be rejected with a message naming the statistic and the any-errors exit status; single-field changes of the input must be rejected as well.",
+  note="Trusted base: serde_json / toml crates for parsing and re-serialising; tuples keep their arity (a malformed file is not a drifted file); is_finalized and (outside stave mode) alpide_stats are not collected statistics.",
+  technique="property-based testing: round-trip + one-at-a-time leaf perturbation (metamorphic: known input change => known output change)"),
  "C16": dict(
   text="Contract oracle over generated command lines and inputs: all invalid option combinations (enumerated) must be rejected with non-zero exit, empty stdout and no file created; unreadable/unrecognisable inputs exit non-zero without crashing; for processed inputs (clean / erroneous / mid-stream fatal, five modes, -E n, custom checks) exit = n iff anything was reported, total_errors = listed + custom = messages shown, and -m / -w / -e change only what is displayed (-w exactness checked with codes that are prefixes and extensions of present codes).",
   note="Trusted base: stderr/stats/report parsers of the harness; the exit-status oracle relates observables of the same run, with the classes clean / wrong custom check known by construction.",
@@ -63,6 +67,14 @@ CHECKS = {
   text="Fault-schedule injection on the real CLI: SIGINT/SIGTERM at delays drawn over the measured run time, stdout closed after N bytes, error cap, mid-stream fatal error; crossed with modes, file/pipe input, schedule perturbation (slow validator / collector / writer so that the bounded queues fill) and input sizes up to 8 MB. Oracle: the process exits by itself within the watchdog with all threads joined, no panic, no terminating signal, exit in {0,1,n}; a partial output file is a whole-packet prefix of the expected filtered output. The fraction of stops that provably landed mid-run is measured.",
   note="Trusted base: watchdog rule (3 reproductions), perturbation hook; timing is sampled not enumerated. A signal delivered before the tool installed its handler terminates the process by default disposition and is excluded (counted).",
   technique="property-based testing with fault injection (signals, closed pipes, error cap, fatal input) and schedule perturbation; validity oracle on the process outcome and on partial output"),
+ "C19": dict(
+  text="Parse-back testing of the three views on the real CLI: every printed row is compared (whitespace-insensitively) with an independent decode of the bytes at the row's offset (14 RDH fields; RDH summary row; IHW/TDH/TDT/DDW/CDW/DATA rows with raw bytes and decoded attributes with their documented priorities; unknown ids on stderr), for well-framed streams with arbitrary header values and word payloads in both formats and for conforming streams, under every filter; styled output with ANSI removed must equal the unstyled output line by line.",
+  note="Trusted base: independent decoders in harness/src/props/c19.rs and model.rs; whitespace-insensitive comparison because columns may overflow.",
+  technique="property-based testing: round-trip oracle (print -> parse back -> compare with independent decode) + styled/unstyled equivalence"),
+ "C20": dict(
+  text="Exactness testing of user-configured checks on the real CLI: conforming streams with known truth (packet count, PhT count, RDH version, OB chip lists, internal-trigger BC sequences with a chosen period incl. wrap-around) against configurations with each key absent / equal / one below / one above (orders exact, superset, permuted, partial), keys in any order or commented; the set of reported messages (codes, offsets, sub-codes) must equal the expected set and the exit status must follow; an all-absent file must be indistinguishable from no file.",
+  note="Trusted base: truths computed from the generated spec; ref_verdict of C13 for chip count / order; the trigger-period rule `(BC - previous internal BC) mod 3564 != P` implemented independently.",
+  technique="property-based testing: exact expected-message-set oracle over generated configurations around the truth (boundary +-1)"),
  "C18": dict(
   text="Differential truncation testing: generated (conforming and corrupted) multi-link streams are cut at structure-derived and random positions (thorough: every byte position of small streams); the truncated run must terminate normally and its findings (error messages / view rows) for all complete packets before the cut must equal those of the untruncated run; check and view modes, file and pipe, with and without filter.",
   note="Trusted base: the untruncated run is the reference; runs whose full input triggers a FATAL stop are excluded (stop point is schedule dependent by design) and counted.",
